@@ -338,6 +338,8 @@ def equip(p, off, hook):
     def pyraise(*a):
         raise ValueError('boom')
     p.set_function('PYRAISE', pyraise)
+    # a host function answering with an error object of the host's own making (not one of the library's constants)
+    p.set_function('MKNA', lambda *a: error.XLError('#N/A'))
     p.set_function('ID', lambda x: x)
     p.set_function('OFF', lambda: off)
 
@@ -441,7 +443,15 @@ class Rig(object):
         tr = fr.trigger
         if tr is not None and not fr.fired and tr['pos'] == [kind, k]:
             fr.fired = True
-            self.evaluate(tr['formula'], tr['target'], X, tr.get('then'))
+            if tr.get('handling'):
+                # the host interposes the evaluation while it is handling an XL error of its own (inside its `except XLError:`)
+                from hotxlfp.formulas import error
+                try:
+                    raise error.from_message(tr['handling'])
+                except error.XLError:
+                    self.evaluate(tr['formula'], tr['target'], X, tr.get('then'))
+            else:
+                self.evaluate(tr['formula'], tr['target'], X, tr.get('then'))
 
     def evaluate(self, formula, target, current, trigger):
         if target == 'same':
@@ -539,6 +549,13 @@ def nest_plans(c):
             for t2 in (('other', 'same', 'new') if thorough else (rng.choice(('other', 'same', 'new')),)):
                 plans.append({'pos': pos, 'target': target, 'formula': inner,
                               'then': {'pos': pos2, 'target': t2, 'formula': third}})
+    # a third of the callbacks interpose their evaluation while the host is handling an XL error of its own
+    codes = sorted(c08.CODES.values())
+    for pl in plans:
+        if rng.random() < 0.33:
+            pl['handling'] = rng.choice(codes)
+        if pl.get('then') and rng.random() < 0.33:
+            pl['then']['handling'] = rng.choice(codes)
     return plans
 
 
@@ -546,6 +563,8 @@ def describe(plan, depth=1):
     s = 'at the %d. %s the callback evaluates %r on %s' % (
         plan['pos'][1] + 1, KIND_TEXT[plan['pos'][0]], plan['formula'],
         {'other': 'another pre-built parser', 'same': 'the SAME parser', 'new': 'a parser constructed inside the callback'}[plan['target']])
+    if plan.get('handling'):
+        s += ' (while the host is handling the error %s it raised itself, inside its except block)' % plan['handling']
     if plan.get('then'):
         s += '; inside that evaluation, ' + describe(plan['then'], depth + 1)
     return s
@@ -1673,6 +1692,11 @@ HAND = ['CB(1)+10', 'CB(CB(2)*3)+CB(4)', 'SUM(CB(1),CB(2),CB(3))*2', 'IF(CB(1)>0
         'CB(1)+', 'CB(1)+*2', '(CB(2)', 'CB(1) 2', 'CB(1)+§', '1 @ CB(2)', 'CB(#REF!)+1', '#N/A', 'RAISE_NUM()+CB(1)',
         'CB(RAISE_NA())', 'PYRAISE(CB(1))', 'CB(PYRAISE())&"x"', 'e_div0+CB(1)', 'OFF()+CB(OFF())', '', '1+2*3',
         'CB()', 'CB(1,2,3)', '-CB(-va)', 'CB(1)<CB(2)', 'CB(2)^2', '50%*CB(4)', 'lv+CB(lv)', 'TRUE+CB(FALSE)']
+# formulas in which a function (built-in or the host's) ends by RAISING an XL error, which the evaluator turns into the call's value
+RAISERS = ['ISNA(SUM({1,NA()}))&CB(1)', 'IFNA(MAX({2,NA()}),0)+CB(1)', 'CB(AVERAGE({1,NA()}))', 'IFERROR(RAISE_NUM(),CB(3))',
+           'IF(ISNA(CB(RAISE_NA())),"missing","present")', 'CB(SQRT(-1))+1', 'ISERROR(LN(CB(0)))']
+# ... and in which the host's function answers with an error object of its own making
+HOSTMADE = ['CB(MKNA())', 'IFNA(MKNA(),CB(2))&"|"', 'ISNA(MKNA())+CB(1)']
 
 
 def wrap4(t, rng, p):
@@ -1753,11 +1777,18 @@ def cases(rng, ctx):
     # ---- (a) nesting
     n_hand = len(HAND) if thorough else 14
     hand = list(HAND) if thorough else HAND[:5] + rng.sample(HAND[5:], n_hand - 5)
+    hand += list(RAISERS) if thorough else rng.sample(RAISERS, 2)
+    hand += list(HOSTMADE) if thorough else rng.sample(HOSTMADE, 1)
     pool = hand + make_pool(rng, (16 if thorough else 6) + 3 * (scale - 1))
+    nests = []
     for outer in pool:
         for inner in pool:
-            out.append({'kind': 'nest', 'outer': outer, 'inner': inner, 'third': rng.choice(pool),
-                        'seed': rng.randrange(1 << 30), 'thorough': thorough})
+            nests.append({'kind': 'nest', 'outer': outer, 'inner': inner, 'third': rng.choice(pool),
+                          'seed': rng.randrange(1 << 30), 'thorough': thorough})
+    # the pairs in which the host makes an error object of its own come last: every other formula has been evaluated alone
+    # by then, so whatever such an object leaves behind in the process shows against those outcomes
+    nests.sort(key=lambda c: any(f in HOSTMADE for f in (c['outer'], c['inner'], c['third'])))
+    out += nests
     # ---- (c) scheduled threads
     def all_interleavings(f0, f1):
         n0, n1 = steps_of(0, f0), steps_of(1, f1)
